@@ -128,6 +128,14 @@ class AggWorld(object):
                          'series %r holds %d interval buffers after a flush; MAX_AGGREGATION_INTERVALS '
                          '+ 2 = %d' % (buf.metric_path, n, self.maxint + 2))
     self.ctx.sigs.add('nbuf:%d' % n)
+    # a flush emits every interval that received data since its last emission
+    series = buf.metric_path
+    for (s, interval), vals in self.R.items():
+      if s == series and self.emitted_n.get((s, interval), 0) != len(vals):
+        self.ctx.violation('C08', 'values-never-emitted', 'compute_value',
+                           '%r interval %r: %d values received, only %d covered by an emission after '
+                           'the flush that followed them (values %r)' % (
+                             s, interval, len(vals), self.emitted_n.get((s, interval), 0), vals[:8]))
     self.tick_series = None
 
   def on_generated(self, metric, datapoint):
